@@ -806,7 +806,12 @@ class C45AbsTriggers(Base):
 
     def on_event(self, ev):
         k = ev['k']
-        if k == 'MSG_OUT':
+        if k == 'MSG_OUT' and ev.get('transient'):
+            # a message for a task that had already left the pool reaches
+            # no prerequisite at all (the C01 known finding 'output-message-
+            # after-final-message'): not an output completed in the pool
+            self.n['outputs_after_task_left_pool'] += 1
+        elif k == 'MSG_OUT':
             p, n = split_id(ev['id'])
             for (t, q, o) in self.abs_atoms:
                 if t == n and q == p:
